@@ -665,7 +665,8 @@ func c06eRun(c c06eCase, res map[string]any) {
 				}
 			} else if c.FastOpen {
 				c2.SetReadDeadline(time.Now().Add(2 * time.Second))
-				if _, err := c2.Read(make([]byte, 1)); err != nil && !isTimeout(err) {
+				// (an EOF means the request was SERVED - the scripted target has ended - so the connection is alive)
+				if _, err := c2.Read(make([]byte, 1)); err != nil && err != io.EOF && !isTimeout(err) {
 					var de coreErrs.DialError
 					if !errors.As(err, &de) {
 						closed = true
